@@ -595,7 +595,18 @@ fn do_check(engine: &Engine, prop: &Prop, args: &Args) -> i32 {
     let mut reported = 0u64;
     let mut known_printed: HashSet<String> = HashSet::new();
     let mut viol_json = vec![];
-    for (class, (r, si, v)) in by_class.iter().take(6) {
+    // unknown classes first (at most 6 are minimised and reported), then known-finding classes
+    let mut ordered: Vec<(&String, &(u64, usize, Violation))> = by_class.iter().collect();
+    ordered.sort_by_key(|(c, _)| known_for(&findings, prop.id, c).is_some());
+    let mut unknown_taken = 0;
+    for (class, (r, si, v)) in ordered {
+        let is_known_class = known_for(&findings, prop.id, class).is_some();
+        if !is_known_class {
+            if unknown_taken >= 6 {
+                continue;
+            }
+            unknown_taken += 1;
+        }
         if class.starts_with("HARNESS/") {
             eprintln!("HARNESS: {} {} (run {r})", class, v.detail);
             return 2;
